@@ -92,9 +92,11 @@ def unitary_spec(ctx, tg):
     shape = rng.choice(["pairs", "chain", "square", "random", "shared3"])
     def U(a, b):
         return ("nonsym", "U", (a, b), (), 0) if kind == "nonsym" else ("asym", "U", (a,), (b,), 0)
+    commons = []
     if shape == "pairs":
         for k in range(0, nU, 2):
             p, q, r = rng.sample(pool, 3)
+            commons.append(p)
             if rng.random() < 0.5:
                 objs += [U(p, q), U(p, r)]
             else:
@@ -122,6 +124,13 @@ def unitary_spec(ctx, tg):
         objs.append((cls, name, tuple(slots[:nu]), tuple(slots[nu:]), 0))
     if rng.random() < 0.15:
         objs.append(("denom", "e", (rng.choice(pool),), (rng.choice(other),), -1))
+    ctx.twin = None
+    if s0 and rng.random() < 0.5:
+        # an index with the name of one of U's indices and the other spin, on a remainder object (both may be targets)
+        partner = rng.choice(commons) if commons and rng.random() < 0.8 else rng.choice(pool)
+        twin = (partner[0], "b" if s0 == "a" else "a")
+        objs.append(("nonsym", "e", (twin,), (), 0))
+        ctx.twin = (partner, twin)
     return (rng.choice([1, -1, sympy.Rational(1, 2)]), objs), pool
 
 
@@ -163,7 +172,7 @@ def run_main(ctx):
     law = orth_law(ORBS)
     n = ctx.pick(400, 6000)
     for it in range(n):
-        tg = G.TermGen(rng, spins=rng.random() < 0.2, numbered=rng.random() < 0.2)
+        tg = G.TermGen(rng, spins=rng.random() < 0.3, numbered=rng.random() < 0.2)
         specs = []
         pool = None
         for _ in range(rng.randint(1, 2)):
@@ -177,6 +186,8 @@ def run_main(ctx):
                 continue
             if explicit:
                 tg_idx = rng.sample(idxs, rng.randint(0, min(3, len(idxs))))
+                if getattr(ctx, "twin", None) and all(i in idxs for i in ctx.twin) and rng.random() < 0.7:
+                    tg_idx = list(ctx.twin) + [i for i in tg_idx if i not in ctx.twin][:1]
                 e = Expr(sy, target_idx=[G.sym_idx(i) for i in tg_idx])
             else:
                 if len(specs) > 1:
@@ -200,14 +211,18 @@ def run_main(ctx):
         meta["output"] = str(out)
         # free indices of the input are the targets of both sides
         try:
-            (x_in,), ic0 = X.export_many([(e, "auto")])
+            req = "auto" if e.provided_target_idx is None else [G.sym_idx(i) for i in tg_idx]
+            (x_in,), ic0 = X.export_many([(e, req)])
             free = {i for t in x_in for o in t[1] for i in C.obj_idx_set(o)} - {c for t in x_in for c in t[2]}
             ic = X.IdxCtx()
-            (x_in, x_out), ic = X.export_many([(e, "auto"), (out, None)], ic)
+            (x_in, x_out), ic = X.export_many([(e, req), (out, None)], ic)
             if e.provided_target_idx is None:
                 free = {i for t in x_in for o in t[1] for i in C.obj_idx_set(o)} - {c for t in x_in for c in t[2]}
             else:
-                free = {ic.conv(i) for i in e.provided_target_idx}
+                # the targets the caller asked for (not what the container reports back)
+                free = {ic.conv(G.sym_idx(i)) for i in tg_idx}
+                x_in = [(c, o, tuple(sorted(i for i in {j for ob in o for j in C.obj_idx_set(ob)} if i not in free)))
+                        for (c, o, _) in x_in]
             x_out = [(c, o, tuple(sorted(i for i in {j for ob in o for j in C.obj_idx_set(ob)} if i not in free)))
                      for (c, o, _) in x_out]
         except X.Unsupported:
